@@ -265,6 +265,11 @@ def starts(inst, cfg):
         ps = {'x': cvx.dmat([0.5 * (j + 1) for j in range(n)]), 's': cvx.dmat(lower_sym(dom.interior(d, 0, 2), d))}
     if st in ('both', 'dual'):
         ds = {'y': cvx.dmat([0.25 * (i + 1) for i in range(p)]), 'z': cvx.dmat(lower_sym(dom.interior(d, 0, 3), d))}
+    bad = cfg.get('badstart')
+    if bad:
+        # an INVALID start: the negated interior point (outside every cone) or the zero vector (on every boundary)
+        tgt = ps if bad[0] == 's' else ds
+        tgt[bad[0]] = tgt[bad[0]] * (-1.0 if bad[1] == 'neg' else 0.0)
     return ps, ds
 
 
@@ -767,6 +772,18 @@ def check_unknown(O, inst, sol, entry, cfg, strict_interior=True):
     if not isinstance(it, int) or it < 0 or it > opts['maxiters']:
         O.bad('unknown:field:iterations', 'iterations = %r with maxiters = %r' % (it, opts['maxiters']), sub)
     return q
+
+
+def bad_start_outcome(O, res, what):
+    """a start point outside (or on the boundary of) the cone is an argument error: it has to be rejected with a
+    ValueError of the solver's own, not run into the scaling computation (sqrt / division of non-positive numbers)
+    or be iterated on.  Returns True when the outcome was an exception (nothing else to judge)."""
+    if isinstance(res, Exception):
+        if not isinstance(res, ValueError) or 'math domain' in str(res):
+            O.bad('invalid-start:not-rejected:%s' % what, 'start with %s outside the open cone was not rejected as an argument '
+                  'error but ended in %s: %s' % (what, type(res).__name__, res))
+        return True
+    return False
 
 
 def check_result(O, inst, res, entry, cfg, allow_exceptions=(ValueError,)):
